@@ -198,6 +198,14 @@ func (d *driver) boundaryString() (string, bool) {
 	}
 }
 
+// askAmt: mostly 1..9, sometimes exactly 0 (must be rejected)
+func askAmt(rng *rand.Rand) int {
+	if rng.Intn(10) == 0 {
+		return 0
+	}
+	return 1 + rng.Intn(9)
+}
+
 func optExp(set bool, t int) M { return M{"set": set, "t": t} }
 
 // next proposes the next abstract message.
@@ -302,7 +310,7 @@ func (d *driver) next(st *State) M {
 			if len(st.Denoms) > 0 && d.rng.Intn(5) != 0 {
 				ad = st.Denoms[d.rng.Intn(len(st.Denoms))]["bank"].(string)
 			}
-			os = append(os, M{"denom": dn, "qty": 0, "qty_raw": raw, "ask_denom": ad, "ask_amt": 1 + d.rng.Intn(9), "dar": d.rng.Intn(2) == 0, "exp": exp})
+			os = append(os, M{"denom": dn, "qty": 0, "qty_raw": raw, "ask_denom": ad, "ask_amt": askAmt(d.rng), "dar": d.rng.Intn(2) == 0, "exp": exp})
 		}
 		m = M{"type": "Sell", "seller": from, "orders": os}
 		m["wf"] = wfAmounts(m, true)
@@ -330,7 +338,7 @@ func (d *driver) next(st *State) M {
 					}
 				}
 			}
-			us = append(us, M{"id": o["id"], "qty": 0, "qty_raw": raw, "ask_denom": ad, "ask_amt": 1 + d.rng.Intn(9), "dar": d.rng.Intn(2) == 0, "exp": exp})
+			us = append(us, M{"id": o["id"], "qty": 0, "qty_raw": raw, "ask_denom": ad, "ask_amt": askAmt(d.rng), "dar": d.rng.Intn(2) == 0, "exp": exp})
 		}
 		m = M{"type": "UpdateSellOrders", "seller": seller, "updates": us}
 		m["wf"] = wfAmounts(m, true)
